@@ -200,13 +200,36 @@ func (c *call) els(i int) []el {
 	return out
 }
 
+// wide / narrow: the letter c stands for a two-byte character wherever an element is a CHARACTER (string
+// sequences, character lists and vectors, items), so that every string holding it has more bytes than characters
+// (an index computed in bytes instead of characters shows). b and B stay ASCII; the order B < b < c is kept.
+func wide(ch rune) rune {
+	switch ch {
+	case 'c':
+		return 'é'
+	case 'C':
+		return 'É'
+	}
+	return ch
+}
+
+func narrow(ch rune) rune {
+	switch ch {
+	case 'é':
+		return 'c'
+	case 'É':
+		return 'C'
+	}
+	return ch
+}
+
 // litEl writes an element as Lisp source (inside a quoted literal).
 func litEl(shape byte, e el) string {
 	switch shape {
 	case 'y':
 		return string(e.ch)
 	case 'c':
-		return `#\` + string(e.ch)
+		return `#\` + string(wide(e.ch))
 	case 'p':
 		return fmt.Sprintf("(%c . %d)", e.ch, e.id)
 	case 'q':
@@ -222,7 +245,7 @@ func litEl(shape byte, e el) string {
 // showEl renders an element the way lisp.Show renders the slip object.
 func showEl(shape byte, e el) string {
 	if shape == 'c' {
-		return `#\` + strconv.QuoteRune(e.ch)
+		return `#\` + strconv.QuoteRune(wide(e.ch))
 	}
 	return litEl(shape, e)
 }
@@ -235,7 +258,7 @@ func litSeq(typ byte, shape byte, els []el) string {
 	case 'S':
 		b.WriteByte('"')
 		for _, e := range els {
-			b.WriteRune(e.ch)
+			b.WriteRune(wide(e.ch))
 		}
 		b.WriteByte('"')
 		return b.String()
@@ -260,7 +283,7 @@ func showSeq(typ byte, shape byte, els []el) string {
 	switch typ {
 	case 'S':
 		for _, e := range els {
-			b.WriteRune(e.ch)
+			b.WriteRune(wide(e.ch))
 		}
 		return strconv.Quote(b.String())
 	case 'L', 'N':
@@ -284,7 +307,7 @@ func showSeq(typ byte, shape byte, els []el) string {
 // itemLit writes the item compared against (key element).
 func (c *call) itemLit(ch rune) string {
 	if c.shape(0) == 'c' {
-		return `#\` + string(ch)
+		return `#\` + string(wide(ch))
 	}
 	return "'" + string(ch)
 }
